@@ -90,6 +90,12 @@ inductive GoVal where
   | bin (s : String)                -- []byte
   deriving DecidableEq, Repr, Inhabited
 
+/-- the Go types `compare`, `tryConvertToInt`, `tryConvertToFloat` and `AddAsString` have a case
+for: string, int64, float64, bool, nil -/
+def GoVal.plain : GoVal → Bool
+  | .u64 _ | .f32 .. | .bin _ => false
+  | _ => true
+
 /-- decode at the node that received the span from the client.  `fj` is `fastjson`'s number parser
 (`Value.GetFloat64`, external), which the JSON batch path uses; `jsoniter` on the JSON event path
 yields the float64 nearest to the literal, which for the literals considered is its value. -/
@@ -205,11 +211,11 @@ def rulesTrace (D : Dec) (t : ETrace) : Rules.Trace :=
 def toTK : GoVal → TraceKey.Val
   | .str s => ⟨"s", s⟩
   | .int n => ⟨"i", toString n⟩
-  | .flt n d => ⟨"f", toString n ++ "/" ++ toString d⟩
+  | .flt n d => ⟨"f", if d = 1 then toString n else toString n ++ "/" ++ toString d⟩
   | .bool b => ⟨"b", if b then "1" else "0"⟩
   | .nil => ⟨"n", ""⟩
   | .u64 n => ⟨"u", toString n⟩
-  | .f32 n d => ⟨"g", toString n ++ "/" ++ toString d⟩
+  | .f32 n d => ⟨"g", if d = 1 then toString n else toString n ++ "/" ++ toString d⟩
   | .bin s => ⟨"x", s⟩
 
 def keySpan (D : Dec) (s : ESpan) : TraceKey.Span :=
